@@ -237,6 +237,7 @@ func (p *Proc) collectLocks() {
 
 type LabOpts struct {
 	Frame, Idle, Sync time.Duration
+	LogSum            time.Duration // interval of the per-connection log summary worker (0 = one hour)
 	NCS               string
 	Auth              bool
 	RT                string // initial verifrt mode: "", "jitter", "sched"
@@ -261,6 +262,9 @@ func (w *Workspace) StartLab(bin string, o LabOpts) (*Proc, error) {
 		o.Sync = time.Hour
 	}
 	args := []string{"-key", TestKeyHex, "-frame", o.Frame.String(), "-idle", o.Idle.String(), "-sync", o.Sync.String()}
+	if o.LogSum > 0 {
+		args = append(args, "-logsum", o.LogSum.String())
+	}
 	if o.NCS != "" {
 		args = append(args, "-ncs", o.NCS)
 	}
